@@ -48,27 +48,27 @@ ASSUMPTIONS = [
     "a write of a negative whole-register value is executed under a line-count bound (sys.settrace), because the current code can loop forever on it",
 ]
 FLOORS = {
-    "grouped": 0.35,
-    "reversed": 0.15,
-    "rev_order": 0.08,
-    "alt_widths": 0.06,
-    "fuse": 0.12,
-    "has_fields": 0.55,
-    "has_enums": 0.35,
-    "shift_field": 0.04,
-    "op:set_bf": 0.5,
-    "op:set_reg": 0.6,
-    "op:query": 0.4,
-    "roundtrip": 0.55,
-    "config_full": 0.25,
-    "config_diff": 0.25,
-    "boundary:2^w": 0.2,
-    "boundary:2^w-1": 0.15,
-    "negative": 0.2,
-    "rejected_write": 0.4,
-    "enum_name_write": 0.07,
-    "bf_then_reg": 0.2,
-    "group_write": 0.08,
+    "grouped": 0.175,
+    "reversed": 0.075,
+    "rev_order": 0.04,
+    "alt_widths": 0.03,
+    "fuse": 0.06,
+    "has_fields": 0.275,
+    "has_enums": 0.175,
+    "shift_field": 0.02,
+    "op:set_bf": 0.25,
+    "op:set_reg": 0.3,
+    "op:query": 0.2,
+    "roundtrip": 0.275,
+    "config_full": 0.125,
+    "config_diff": 0.125,
+    "boundary:2^w": 0.1,
+    "boundary:2^w-1": 0.075,
+    "negative": 0.1,
+    "rejected_write": 0.2,
+    "enum_name_write": 0.035,
+    "bf_then_reg": 0.1,
+    "group_write": 0.04,
 }
 
 _K = int.from_bytes(hashlib.sha512(b"c11 value spreader").digest(), "big") | 1
